@@ -248,17 +248,17 @@ def simd_oracle(h, il):
 KEEP = ("D64", "D128", "D256", "CK", "PANIC", "FAULT", "TAG", "FIN", "NONE")
 
 
-def neon(ctx):
+def neon(ctx, tier=None):
     rng = Rng(ctx.seed).fork("neon")
-    hists = simd_histories(rng, ctx.tier, "N")
+    hists = simd_histories(rng, tier or ctx.tier, "N")
     itr, problems = std_run("aarch64-unknown-linux-gnu", hists)
     compare(ctx, "aarch64-unknown-linux-gnu", STD_TARGETS["aarch64-unknown-linux-gnu"], hists, itr, problems, simd_oracle, KEEP,
             "NeonHash vs PortableHash")
 
 
-def wasm(ctx):
+def wasm(ctx, tier=None):
     rng = Rng(ctx.seed).fork("wasm")
-    hists = simd_histories(rng, ctx.tier, "W")
+    hists = simd_histories(rng, tier or ctx.tier, "W")
     itr, problems = wasm_run(hists)
     compare(ctx, WASM_TARGET, WASM_CFG, hists, itr, problems, simd_oracle, KEEP, "WasmHash vs PortableHash")
 
@@ -267,8 +267,9 @@ def simd_backends(ctx):
     """The properties quantified over "every backend" (C05, C06, C11, C14): the histories of C03 / C04 — streaming with a cut, checkpoint
     interchange at the cut, checkpoint bytes after a wrapped buffer, restores from arbitrary bytes, one-shot helpers on non-fresh
     hashers — on the real NeonHash and WasmHash under Miri, next to PortableHash in the same process and against the model."""
-    neon(ctx)
-    wasm(ctx)
+    # the quick-sized history set in both tiers (the large sets are C03's and C04's thorough tier)
+    neon(ctx, "quick")
+    wasm(ctx, "quick")
 
 
 def portable_targets(ctx):
